@@ -124,6 +124,32 @@ for name, (en, dis) in {
 }.items():
     P.append((name, fs))
     FEATURES[name] = (en, dis)
+# format x keyword mixes: one property "x" of a JSON request body each (the first five were reported by a seed agent
+# of round 3 as accepted specs whose package does not build; the others are neighbours of the same family)
+for nm, sch in {
+    "fmt_strfloat_maxlen": '{type: string, format: float64, maxLength: 5}',
+    "fmt_strint_enum": '{type: string, format: int32, enum: ["1", "2"]}',
+    "fmt_bytes_unique": '{type: array, uniqueItems: true, items: {type: string, format: byte}}',
+    "fmt_int32_default_big": '{type: integer, format: int32, default: 4294967296}',
+    "fmt_int32_enum_big": '{type: integer, format: int32, enum: [1, 4294967296]}',
+    "fmt_strint_minlen": '{type: string, format: int64, minLength: 1}',
+    "fmt_uuid_unique": '{type: array, uniqueItems: true, items: {type: string, format: uuid}}',
+    "fmt_int8_default": '{type: integer, format: int8, default: 100}',
+    "fmt_struint_default": '{type: string, format: uint64, default: "7"}',
+}.items():
+    P.append((nm, api(op("/f", "f", "F"), "    F:\n      type: object\n      properties:\n        x: %s\n" % sch)))
+# operation groups (x-ogen-operation-group) whose members interleave when sorted by operation name; one group; mixed
+def gop(path, opid, group):
+    return "  %s:\n    get:\n      operationId: %s\n%s      responses:\n        '200': {description: ok}\n" % (path, opid, ("      x-ogen-operation-group: %s\n" % group) if group else "")
+P.append(("groups_interleaved", api(gop("/a", "createImage", "Images") + gop("/b", "createUser", "Users") + gop("/c", "listImages", "Images") + gop("/d", "listUsers", "Users"))))
+P.append(("groups_mixed", api(gop("/a", "alpha", "G1") + gop("/b", "beta", None) + gop("/c", "gamma", "G1") + gop("/d", "delta", "G2") + gop("/e", "epsilon", None))))
+# two path parameters in a row next to a sibling sharing the first parameter, in both routing orders (must be refused
+# or build)
+def pp(path, opid, names):
+    return "  %s:\n    get:\n      operationId: %s\n      parameters:\n%s      responses:\n        '200': {description: ok}\n" % (json.dumps(path), opid, "".join("        - {name: %s, in: path, required: true, schema: {type: string}}\n" % n for n in names))
+P.append(("adjparams_a", api(pp("/files/{name}", "getFile", ["name"]) + pp("/files/{name}{ext}", "getFileWithExt", ["name", "ext"]))))
+P.append(("adjparams_b", api(pp("/files/{name}", "zFile", ["name"]) + pp("/files/{name}{ext}", "aFileWithExt", ["name", "ext"]))))
+P.append(("adjparams_c", api(pp("/files/{name}/raw", "getRaw", ["name"]) + pp("/files/{name}{ext}/raw", "getRawExt", ["name", "ext"]))))
 P.append(("webhooksec", open(os.path.join(os.path.dirname(os.path.abspath(__file__)), "spec_webhook_security.yml")).read()))
 P.append(("formnoprops", open(os.path.join(os.path.dirname(os.path.abspath(__file__)), "spec_form_no_props.yml")).read()))
 P.append(("enumconst", open(os.path.join(os.path.dirname(os.path.abspath(__file__)), "spec_enum_const_collision.yml")).read()))
